@@ -108,6 +108,28 @@ Theorem C15_clock_ahead_badger_all_commit : forall w k os h bc bu t1 t2 p w' p' 
 Proof. exact clock_ahead_badger_all_commit. Qed.
 Print Assumptions C15_clock_ahead_badger_all_commit.
 
+(* The executable oracle, evaluated on the implementation's observations, accepts every trace the
+   model produces — except on the finding's signature, where it answers with the finding's code.
+   c15_valid: every election in the script is a winning one by a fresh process, only the current
+   leader serves requests, and on the environment clocks the rate hypothesis holds at every hand-over. *)
+Theorem C15_oracle_sound : forall c, c15_valid c -> c15_check c = true ->
+  c15_oracle c = None \/ (c15_oracle c = Some 1 /\ c_engine c = EBadger).
+Proof. exact c15_oracle_sound. Qed.
+Print Assumptions C15_oracle_sound.
+
+(* leader.go OnStartedLeading raises the leader flag only AFTER SetCurrentRevision; IsLeader() admits
+   writes. For every interleaving of client requests with the steps of the callback (parse, install,
+   flag): the flag implies the parsed version is installed, and every revision ever handed out by
+   the node is above it — hence, with C15_safe_if_ahead, above every stored revision whenever the
+   parsed version is. (The order is load-bearing: the thorough-tier Campaign case of the driver
+   polls IsLeader() while the callback is delayed and catches a swapped order on the real code.) *)
+Theorem C15_flag_after_install : forall ls,
+  let '(x, os) := nrun node0 ls in
+  (n_flag x = true -> exists v, n_pc x = CbLeading v /\ v <= deal (n_lead x)) /\
+  (forall r, In (Some r) os -> exists v, n_pc x = CbLeading v /\ v < r).
+Proof. exact flag_after_install. Qed.
+Print Assumptions C15_flag_after_install.
+
 (* the oracle reports code 1 only on Badger (and then only when the base is behind, by its definition) *)
 Theorem C15_oracle_code : forall c k, c15_oracle c = Some k -> k = 0 \/ (k = 1 /\ c_engine c = EBadger).
 Proof. exact c15_oracle_code. Qed.
@@ -140,4 +162,36 @@ Example C15_oracle_rejects :
   c15_oracle (mkC15 EMem
     [(AElect 2 idB recB recB 5 5, OElect (EAcquired 5) ROk ROk d_ex (Some recB));
      (AOp 2 (HCreate [99] [1]), OOp (mkRes HOk 6))]) = Some 0.
+Proof. vm_compute. reflexivity. Qed.
+
+(* C15_oracle_sound is not vacuous: a script with a hand-over that the model reproduces is valid,
+   on an environment clock (accepted) and on Badger (classified as the finding) *)
+Fixpoint model_script (e : engine) (s : mstate) (acts : list act) : list (act * aobs) :=
+  match acts with
+  | [] => []
+  | a :: tl => let '(s', o) := m_step e s a in (a, o) :: model_script e s' tl
+  end.
+Definition ex_acts (t2 t4 : N) : list act :=
+  [AElect 1 idA recA recA 0 t2] ++ map (AOp 1) f1_history ++
+  [ARestart; AElect 2 idB recB recB t4 t4; AList 2; AOp 2 (HUpdate kb [1] (t2 + 12)); AOp 2 (HCreate [99] [1])].
+Example C15_valid_inhabited_env :
+  let c := mkC15 EMem (model_script EMem mstate0 (ex_acts 100 112)) in
+  c15_valid c /\ c15_check c = true /\ c15_oracle c = None.
+Proof.
+  split; [|split; vm_compute; reflexivity].
+  vm_compute. repeat split; intros; try discriminate; try congruence.
+Qed.
+Example C15_valid_inhabited_badger :
+  let c := mkC15 EBadger (model_script EBadger mstate0 (ex_acts 1 0)) in
+  c15_valid c /\ c15_check c = true /\ c15_oracle c = Some 1.
+Proof.
+  split; [|split; vm_compute; reflexivity].
+  vm_compute. repeat split; intros; try discriminate; try congruence.
+Qed.
+
+(* the callback order on a concrete interleaving: requests before the flag are refused, after it they
+   get revisions above the installed version *)
+Example C15_flag_order :
+  snd (nrun node0 [NRequest; NParse 100; NRequest; NInstall; NRequest; NFlag; NRequest; NRequest])
+  = [None; None; None; None; None; None; Some 101; Some 102].
 Proof. vm_compute. reflexivity. Qed.
